@@ -504,6 +504,16 @@ def sym_compare(op, a, b):
 # buffers
 # --------------------------------------------------------------------------
 
+class SymFloat:
+    """the float result of an exact true division (numerator below 2**53, divisor a power of two): int() gives ``floor``"""
+
+    def __init__(self, floor):
+        self.floor = floor
+
+    def __repr__(self):
+        return "SymFloat(%r)" % (self.floor,)
+
+
 class Buf:
     """A mutable byte buffer built by the analysed code (``bytearray(n)``).
 
